@@ -372,6 +372,17 @@ static int run_cmd(char *op, int *a, int na) {
         uint32_t n = (uint32_t)a[2]; uint8_t *b = exact(n); for (uint32_t i = 0; i < n; i++) b[i] = (uint8_t)(a[3] + i);
         CO_ERR e = CODictWrBuffer(&node.Dict, CO_DEV(a[0], a[1]), b, n); if (e) ITEM("err %d", (int)e); else ITEM("ok"); free(b);
     }
+    /* continued buffer access (COObjRdBufCont / COObjWrBufCont): goes on at the position the last access of the object left */
+    else if (IS("rdbufc")) {
+        uint32_t n = (uint32_t)a[2]; uint8_t *b = exact(n); memset(b, 0xCC, n ? n : 1);
+        CO_OBJ *o = CODictFind(&node.Dict, CO_DEV(a[0], a[1])); CO_ERR e = o ? COObjRdBufCont(o, &node, b, n) : CO_ERR_OBJ_NOT_FOUND;
+        item_begin(); printf("buf %d", (int)e); for (uint32_t i = 0; i < n; i++) printf(" %u", b[i]); free(b);
+    }
+    else if (IS("wrbufc")) {
+        uint32_t n = (uint32_t)a[2]; uint8_t *b = exact(n); for (uint32_t i = 0; i < n; i++) b[i] = (uint8_t)(a[3] + i);
+        CO_OBJ *o = CODictFind(&node.Dict, CO_DEV(a[0], a[1])); CO_ERR e = o ? COObjWrBufCont(o, &node, b, n) : CO_ERR_OBJ_NOT_FOUND;
+        if (e) ITEM("err %d", (int)e); else ITEM("ok"); free(b);
+    }
     else if (IS("dump")) {            /* idx sub : object bytes (raw storage) */
         int found = 0;
         for (int i = 0; i < nblk; i++) if (blk[i].idx == a[0] && blk[i].sub == a[1]) {
